@@ -584,6 +584,8 @@ fn events_in_sequences(ctx: &mut Ctx, rng: &mut Rng) {
                 if !ctx.mine(eidx) { continue; }
                 // shape 3: a burst of 30 000-byte events queued before the stream starts (several fit one read of the encoder, not all)
                 // shape 4: the stream fails in mid-body (an event too large for the encoder): what was sent stays, nothing follows it
+                // (once: a burst of 12 events, 360 kB, consumed back to back)
+                let n = if shape == 3 && n == 3 && sched == "single" { 11 } else { n };
                 let reqs = if shape == 4 { format!("GET:/pre{eidx}:n::n200;GET:/ev{eidx}:n::O{n};GET:/after{eidx}:n::n200") } else if shape == 3 { format!("GET:/ev{eidx}:n::B{};GET:/after{eidx}:n::n200", n + 1) } else if shape == 2 { format!("GET:/pre{eidx}:n::n200;GET:/ev{eidx}:n::X{n};GET:/after{eidx}:n::n200") } else if shape == 0 { format!("GET:/ev{eidx}:n::E{n};GET:/after{eidx}:n::n200") }
                     else { format!("GET:/pre{eidx}:n::n200;GET:/ev{eidx}:n::E{n};POST:/post{eidx}:k:{}:n201;GET:/ev2{eidx}:n::E1", body(rng, 30)) };
                 case(ctx, "c04", "100", "1", sched, &reqs);
@@ -816,6 +818,8 @@ pub fn case_pool(ctx: &mut Ctx, n: &str) {
                 ENTERED.fetch_add(1, Ordering::SeqCst);
                 let deadline = std::time::Instant::now() + Duration::from_secs(10);
                 while !RELEASE.load(Ordering::SeqCst) && std::time::Instant::now() < deadline { std::thread::sleep(Duration::from_millis(2)); }
+                // (every other panic carries a payload that is not a string)
+                if path.ends_with('0') || path.ends_with('2') { std::panic::panic_any(42u32); }
                 panic!("scripted handler panic");
             }
             if path == "/up" {
